@@ -35,14 +35,16 @@ run "counts the components of a name as they are written" C16
 run "has used up, or that is a directory" C16
 run "appended to .pc/applied-patches on a line of their own" C08
 run "does not take a directory of size 0 for an empty file" C17
-run "ends in a slash or in" C05 C10
 run "working directory itself is not removed" C19
 run "does not follow a symbolic link below .pc" C19
 run "entry dated to the epoch on one side keeps the name" C01
 run "series file is read as bytes" C16
-run "all of whose names -pN has used up" C16
 run "climbs past a directory that never came to exist" C09
 run "also skipped when finding the matching lines alone" C11
+# the refusal of used-up names uses the error that the refusal of names ending in a slash introduced: undone together, and each judged by its own cases
+c5=$(h "all of whose names -pN has used up"); c6=$(h "ends in a slash or in")
+tools/revert_eval.sh $c5 C16 2>&1 | grep -v conda | cut -c1-220 >> $out
+tools/revert_eval.sh $c5,$c6 C05 C10 2>&1 | grep -v conda | cut -c1-220 >> $out
 # the check of backups uses the function that the check of targets introduced: undone together
 c3=$(h "does not follow a symbolic link below .pc"); c4=$(h "leads out of the working directory through a symbolic link")
 tools/revert_eval.sh $c3,$c4 C19 2>&1 | grep -v conda | cut -c1-220 >> $out
